@@ -68,6 +68,11 @@ pub enum Expect {
 
 /// RFC 9112 section 6.3 as stated by the property.
 pub fn framing_table(method: &Method, status: u16, resp_v11: bool, cl: ClClass, te_present: bool, te_chunked: bool) -> Expect {
+    if status == 100 {
+        // interim: owned by C11. Whether an interim 100 that carries fields - even a nonsensical Content-Length - is an error, is
+        // skipped or is handed to the caller is stated nowhere; all status-100 cells are don't-care
+        return Expect::Any;
+    }
     if cl == ClClass::Bad {
         return Expect::Err;
     }
@@ -76,9 +81,6 @@ pub fn framing_table(method: &Method, status: u16, resp_v11: bool, cl: ClClass, 
     }
     if let ClClass::ListOfSame(_) = cl {
         return Expect::Any;
-    }
-    if status == 100 {
-        return Expect::Any; // interim: owned by C11
     }
     let no_body = *method == Method::HEAD
         || (*method == Method::CONNECT && (200..300).contains(&status))
